@@ -875,6 +875,12 @@ Proof.
   destruct (aget k (s_ents s)) as [e|]; auto. destruct (e_val e) as [[v st]|]; auto.
 Qed.
 
+Lemma begin_unlock_guards c s g : s_guards (begin_unlock c s g) = s_guards s.
+Proof.
+  unfold begin_unlock. destruct (c_lru c); auto. destruct (aget g (s_guards s)) as [k|]; auto.
+  destruct (aget k (s_ents s)) as [e|]; auto. destruct (e_val e) as [[v st]|]; auto.
+Qed.
+
 Lemma unlock_cs_ops c s g s1 : unlock_cs c s g = inl (Some s1) -> s_ops s1 = s_ops s.
 Proof.
   unfold unlock_cs. destruct (aget g (s_guards s)) as [k|]; [|discriminate].
